@@ -20,6 +20,38 @@ from .l2 import Case
 ATTR = r"#\[(%s)\(([^\]]*)\)\]"
 
 
+def attr_spans(src):
+    """(start, end) of every `#[...]` attribute in `src` (brackets matched, string literals skipped)."""
+    res, i, n = [], 0, len(src)
+    while i < n - 1:
+        if src[i] == '"':
+            i += 1
+            while i < n and src[i] != '"':
+                i += 2 if src[i] == "\\" else 1
+            i += 1
+            continue
+        if src[i] == "#" and src[i + 1] == "[":
+            depth, k = 0, i + 1
+            while k < n:
+                c = src[k]
+                if c == '"':
+                    k += 1
+                    while k < n and src[k] != '"':
+                        k += 2 if src[k] == "\\" else 1
+                elif c == "[":
+                    depth += 1
+                elif c == "]":
+                    depth -= 1
+                    if depth == 0:
+                        break
+                k += 1
+            res.append((i, k + 1))
+            i = k + 1
+            continue
+        i += 1
+    return res
+
+
 def rewrites(src):
     """Yield (kind, rewritten source) for every applicable synonymous spelling."""
     out = []
@@ -69,6 +101,28 @@ def rewrites(src):
         # only permute attributes of different kinds, or a fmt literal with its bound attribute
         if len(set(names)) == len(names) or (len(attrs) == 2 and ("bound(" in attrs[0]) != ("bound(" in attrs[1])):
             out.append(("reorder-attrs", src[:m.start()] + "\n".join(reversed(attrs)) + "\n" + src[m.end():]))
+    # foreign attributes (doc comments, lint attributes) between / before / after a derive's own attributes do not change
+    # what the derive reads
+    spans = attr_spans(src)
+    runs, cur = [], []
+    for sp in spans:
+        if cur and src[cur[-1][1]:sp[0]].strip() == "":
+            cur.append(sp)
+        else:
+            if len(cur) >= 2:
+                runs.append(cur)
+            cur = [sp]
+    if len(cur) >= 2:
+        runs.append(cur)
+    for run in runs[:1]:
+        for k, foreign in enumerate(("/// doc\n", "#[allow(dead_code)] ", "#[doc = \"x\"] #[allow(clippy::all)] ")):
+            pieces = [src[a:b] for a, b in run]
+            out.append(("foreign-attr-between:%d" % k, src[:run[0][0]] + (" " + foreign).join(pieces) + " " + src[run[-1][1]:]))
+    own = [sp for sp in spans if re.match(r"#\[(?:from|into|as_ref|as_mut|display|debug|error|deref|deref_mut|index|index_mut|into_iterator|try_into|unwrap|try_unwrap|is_variant|mul|try_from)\b", src[sp[0]:sp[1]])]
+    if own:
+        a, b = own[0]
+        out.append(("foreign-attr-before", src[:a] + "/// doc\n#[allow(dead_code)] " + src[a:]))
+        out.append(("foreign-attr-after", src[:b] + " #[allow(dead_code)] /// doc\n" + src[b:]))
     return out
 
 
